@@ -1,7 +1,9 @@
 ---------------------------- MODULE MC_RainCore ----------------------------
 EXTENDS RainCore
+CONSTANT MaxFiles
 \* hist and nextPin ids are ghosts / names: hide them from the fingerprint
 MCView == <<seq, [i \in 1..Len(hist) |-> hist[i]], mem, imm, immOn, immDone, files, cur,
             {[mem |-> p.mem, imm |-> p.imm, ver |-> p.ver, seq |-> p.seq] : p \in pins},
-            snaps, pending, comp, disk, nextFile, curWal, logWal>>
+            snaps, pending, comp, disk, nextFile, curWal, logWal, gcDue, immWal>>
+MCBound == nextFile <= MaxFiles
 =============================================================================
